@@ -9,7 +9,7 @@ LEVEL = "exploration"
 RULE = ("recursive random values: None, bool, ints (incl. beyond 2**64), floats (+-0.0, 1e308, 5e-324, inf, nan), "
         "unicode strings (empty, quotes, control characters, U+2028, astral), UUIDs, a registered third-party type "
         "(decimal.Decimal, fractions.Fraction, a three-level plain-class chain Money > TaxedMoney > Tip registered base "
-        "first, a sub-class registered before its base, and a registered sub-class of uuid.UUID), a 4-level SubclassJSONSerializer hierarchy with nested serialisable fields, lists nested "
+        "first, a sub-class registered before its base, a registered sub-class of uuid.UUID, a registered iterable type (collections.deque)) and an iterable SubclassJSONSerializer sub-class, a 4-level SubclassJSONSerializer hierarchy with nested serialisable fields, lists nested "
         "to depth 5 and empty lists; oracle: from_json(json.loads(json.dumps(to_json(v)))) equals v (NaN-aware) with "
         "type(x) is type(y) at every position and every serialised object dict carries its fully qualified tag.  "
         "Non-trivial = value contains an object or a nested list; distinct = type-structure signature of the value")
@@ -24,7 +24,7 @@ def plan(tier):
             "min_nontrivial": 300,
             "min_counters": {"objects_roundtripped": 5000, "tags_checked": 5000, "leaf:float": 1000, "leaf:uuid": 300,
                              "leaf:decimal": 300, "lists": 3000, "leaf:taxedmoney": 100, "leaf:entityid": 100,
-                             "leaf:early": 100, "leaf:tip": 100}}
+                             "leaf:early": 100, "leaf:tip": 100, "leaf:deque": 100}}
 
 
 def setup(ctx):
@@ -44,7 +44,9 @@ def gen_value(rng, depth):
     if depth <= 0 or r < 0.45:
         k = rng.choice(["none", "bool", "int", "float", "str", "uuid", "decimal", "reg"])
         if k == "reg":
-            cls = rng.choice(["Money", "TaxedMoney", "Tip", "Early", "EntityId", "Fraction"])
+            cls = rng.choice(["Money", "TaxedMoney", "Tip", "Early", "EntityId", "Fraction", "Deque"])
+            if cls == "Deque":
+                return ["reg", cls, [gen_value(rng, 0) for _ in range(rng.randint(0, 3))]]
             if cls == "EntityId":
                 return ["reg", cls, "%032x" % rng.getrandbits(128)]
             if cls == "Fraction":
@@ -69,10 +71,10 @@ def gen_value(rng, depth):
         return ["decimal", rng.choice(["0", "1.50", "-3.14159", "1E+30", "NaN", "Infinity", "0.000000001"])]
     if r < 0.7:
         return ["list", [gen_value(rng, depth - 1) for _ in range(rng.choice([0, 0, 1, 2, 3, 4]))]]
-    level = rng.randint(0, 3)
+    level = rng.randint(0, 4)          # 4 = IterNode (a Node1 that is iterable)
     node = ["node", level, rng.choice(STRINGS), gen_value(rng, depth - 1),
             [gen_value(rng, depth - 2) for _ in range(rng.choice([0, 0, 1, 2]))]]
-    if level >= 2:
+    if level in (2, 3):
         node.append(rng.randint(-5, 5))
     if level == 3:
         node.append(gen_value(rng, depth - 1))
@@ -107,13 +109,16 @@ def materialise(v, jm):
             return jm.EntityId(v[2])
         if v[1] == "Fraction":
             return fractions.Fraction(v[2], v[3])
+        if v[1] == "Deque":
+            import collections
+            return collections.deque(materialise(x, jm) for x in v[2])
         n = {"Money": 2, "Early": 2, "TaxedMoney": 3, "Tip": 4}[v[1]]
         return getattr(jm, v[1])(*v[2:2 + n])
     if k == "list":
         return [materialise(x, jm) for x in v[1]]
-    cls = [jm.Node0, jm.Node1, jm.Node2, jm.Node3][v[1]]
+    cls = [jm.Node0, jm.Node1, jm.Node2, jm.Node3, jm.IterNode][v[1]]
     kw = {"name": v[2], "payload": materialise(v[3], jm), "friends": [materialise(x, jm) for x in v[4]]}
-    if v[1] >= 2:
+    if v[1] in (2, 3):
         kw["level"] = v[5]
     if v[1] == 3:
         kw["extra"] = materialise(v[6], jm)
@@ -150,6 +155,10 @@ def same(a, b, path, problems, C):
         if str(a) != str(b):
             problems.append(f"{path}: {a!r} -> {b!r}")
         return
+    import collections
+    if isinstance(a, collections.deque):
+        C["leaf:deque"] += 1
+        a, b = list(a), list(b)
     if isinstance(a, list):
         C["lists"] += 1
         if len(a) != len(b):
@@ -174,6 +183,7 @@ def jm_Money():
 
 
 def check_tags(value, ser, path, problems, C):
+    import collections
     import dataclasses
     import decimal
     import fractions
@@ -184,12 +194,14 @@ def check_tags(value, ser, path, problems, C):
             return
         for i, (v, s) in enumerate(zip(value, ser)):
             check_tags(v, s, f"{path}[{i}]", problems, C)
-    elif dataclasses.is_dataclass(value) or isinstance(value, (uuid.UUID, decimal.Decimal, fractions.Fraction, jm_Money())):
+    elif dataclasses.is_dataclass(value) or isinstance(value, (uuid.UUID, decimal.Decimal, fractions.Fraction, jm_Money(), collections.deque)):
         C["tags_checked"] += 1
         want = type(value).__module__ + "." + type(value).__name__
         if not isinstance(ser, dict) or ser.get("__json_type__") != want:
             problems.append(f"{path}: tag {ser.get('__json_type__') if isinstance(ser, dict) else ser!r} != {want}")
             return
+        if isinstance(value, collections.deque):
+            check_tags(list(value), ser.get("items"), f"{path}.items", problems, C)
         if dataclasses.is_dataclass(value):
             for f in dataclasses.fields(value):
                 if f.name in ser and f.name in ("payload", "friends", "extra"):
